@@ -90,6 +90,13 @@ def ImgChunk (fs : Fs) (D : Nat) (p : Closed × List Record) : Prop :=
     (∃ e rest, parseChunk g.data = (sized (p.2.take j), e, rest)) ∧
     ∀ i, i ≤ p.2.length → p.1.id + (encAll (p.2.take i)).length ≤ D → i ≤ j
 
+/-- D15: syncing a file does not change what any chunk file parses to. -/
+theorem ImgChunk.sync {fs : Fs} {D : Nat} {p : Closed × List Record} (h : ImgChunk fs D p)
+    (id : Nat) : ImgChunk (fs.sync id) D p := by
+  obtain ⟨k1, k2, g, k3, k4⟩ := h
+  obtain ⟨g', r1, r2, _⟩ := Fs.find_sync_some id k3
+  exact ⟨k1, k2, g', r1, by rw [r2]; exact k4⟩
+
 /-- Each chunk starts where the full previous one ends. -/
 def AbutC3 : List (Closed × List Record) → Prop
   | [] => True
@@ -313,7 +320,7 @@ theorem openLoop_image_C3 (cfg : Cfg) (D : Nat) : ∀ (jl : List (Closed × List
           rw [hnil] at this
           simpa [opsFrom] using this
         · rw [if_neg hemp] at h
-          obtain ⟨P, hP, q1, q2, q3⟩ := ih _ x a' h hfs1 habut.tail
+          obtain ⟨P, hP, q1, q2, q3⟩ := ih _ x a' h (fun q hq => (hfs1 q hq).sync c.id) habut.tail
           simp only at q1 q2
           -- the chunk is complete, or it is the last one
           have hfull : rs.take j = rs ∨ P = [] := by
